@@ -12,6 +12,7 @@ Only exercised by harness/c02.py (not theorems): the 171 other features and the 
 CPython's line numbers, `meta/program` (see DESIGN §5/C02).
 -/
 import Paroxy.Proofs.HintsSpans
+import Paroxy.Proofs.HintsPrepare
 import Paroxy.Model.ParseGlue
 namespace Paroxy.Props.C02
 open Paroxy Paroxy.Hints Paroxy.Glue
@@ -29,12 +30,12 @@ theorem C02_validSpanB_iff (listing : Str) (s e : Nat) : validSpanB listing s e 
 
 /-- **C02 (hint spans, all texts).** Whatever the text: every span `get_program` schedules is an
 ordered pair of line numbers of the centrifugated text (the text in which `collect_hints` numbers
-the lines). What can still go wrong is only the difference between that text and the stored
-source — blank ends stripped, hint-only lines swallowed (finding 7). -/
+the lines, after normalisation of the markers and trimming of the blank ends). What can still go
+wrong is only a difference between the number of lines of that text and of the stored source. -/
 theorem C02_hint_spans_centrifugated (src c : Str) (p : Program)
-    (hc : centrifugate src = .ok c) (h : getProgram src = .ok p) :
+    (hc : centrifugate (prepare src) = .ok c) (h : getProgram src = .ok p) :
     ∀ e ∈ p.addition.entries ++ p.deletion.entries, ValidSpan c e.2.1 e.2.2 := by
-  unfold getProgram at h
+  unfold getProgram getProgramFrom at h
   simp only [hc] at h
   split at h
   · cases h
@@ -42,18 +43,25 @@ theorem C02_hint_spans_centrifugated (src c : Str) (p : Program)
     cases h
     exact collectHints_spans c a d hcol
 
-/-- **C02 (hint spans), partial.** For a hygienic decorated program (code lines hint-free, no
-trailing white space; first line neither blank nor indented, last line not blank): whenever
-`get_program` returns, the stored source is the program without its hints and every scheduled span
-is a valid line range of that stored listing. -/
-theorem C02_hint_spans_partial (d : Decorated) (hyg : hygienic d = true) (p : Program)
-    (h : getProgram (decorate d) = .ok p) :
-    p.source = joinNL (base d) ∧
+/-- **C02 (hint spans), partial.** For a decorated program with hygienic lines, markers spelled
+freely, blank lines allowed at both ends of the text, such that — once those blank ends are
+trimmed — the first code line is neither blank nor indented and the last one is not blank:
+whenever `get_program` returns, the stored source is the program without its hints and every
+scheduled span is a valid line range of that stored listing. -/
+theorem C02_hint_spans_partial (d : List (Line × MarkerStyle))
+    (hlines : ((codeLines (d.map Prod.fst)).all okCode && (wholeLabels (d.map Prod.fst)).all cleanLabel &&
+      looseOk (d.map Prod.fst)) = true)
+    (hyg : hygienic (normalised d) = true) (p : Program)
+    (h : getProgram (decorateS d) = .ok p) :
+    p.source = joinNL (base (normalised d)) ∧
       ∀ e ∈ p.addition.entries ++ p.deletion.entries, ValidSpan p.source e.2.1 e.2.2 := by
-  obtain ⟨hc, hsrc, hl1, hl2⟩ := decorated_source_and_lines d (hyg_of d hyg)
+  have hy := hyg_of _ hyg
+  have hprep := prepare_decorateS d (linesOk_of _ hlines) hy.ne
+  obtain ⟨hc, hsrc, hl1, hl2⟩ := decorated_source_and_lines (normalised d) hy
+  rw [← hprep] at hc
   have hspans := C02_hint_spans_centrifugated _ _ p hc h
-  have hps : p.source = joinNL (base d) := by
-    unfold getProgram at h
+  have hps : p.source = joinNL (base (normalised d)) := by
+    unfold getProgram getProgramFrom at h
     simp only [hc] at h
     split at h
     · cases h
@@ -69,24 +77,33 @@ def C02_hint_spans : Prop :=
   ∀ (src : Str) (p : Program), getProgram src = .ok p → p.source ≠ [] →
     ∀ e ∈ p.addition.entries ++ p.deletion.entries, ValidSpan p.source e.2.1 e.2.2
 
-def blankStart : Str := "\n\nx = 1 # paroxython: foo\n".toList
+def hintThenBlank : Str := "# paroxython: foo\n\nx = 1".toList
 
-/-- … is false on the current tree (finding 7): `foo` is scheduled on line 3 of a 1-line listing. -/
+/-- … is still false on the repaired tree: a hint alone on the first line followed by a blank line.
+The blank line is not at the beginning of the text, hence not trimmed; it is numbered (`foo` on 1–2)
+and then stripped from the stored source (one line). Same at the end: `x = 1\n\n# paroxython: foo`. -/
 theorem C02_hint_spans_counterexample : ¬ C02_hint_spans := by
   intro h
-  have hp : getProgram blankStart = .ok ⟨"x = 1".toList, [("foo".toList, [(3, 3)])], []⟩ := by rfl
-  have := h blankStart _ hp (by decide) ("foo".toList, 3, 3) (by decide)
+  have hp : getProgram hintThenBlank = .ok ⟨"x = 1".toList, [("foo".toList, [(1, 2)])], []⟩ := by rfl
+  have := h hintThenBlank _ hp (by decide) ("foo".toList, 1, 2) (by decide)
   revert this
   simp only [ValidSpan]
   decide
 
-/-- A second witness: a hint alone on a line in a newline-terminated text is closed on the empty
-last "line": `foo` on 1–3 of a 2-line listing. -/
+example : getProgram "x = 1\n\n# paroxython: foo".toList =
+    .ok ⟨"x = 1".toList, [("foo".toList, [(1, 2)])], []⟩ := by rfl
+
+/-- The inputs of the repaired findings 7 and 7b now satisfy the property. -/
+example : getProgram "\n\nx = 1 # paroxython: foo\n".toList =
+    .ok ⟨"x = 1".toList, [("foo".toList, [(1, 1)])], []⟩ := by rfl
 example : getProgram "x = 1\n# paroxython: foo\ny = 2\n".toList =
-    .ok ⟨"x = 1\ny = 2".toList, [("foo".toList, [(1, 3)])], []⟩ := by rfl
+    .ok ⟨"x = 1\ny = 2".toList, [("foo".toList, [(1, 2)])], []⟩ := by rfl
+example : getProgram "x = 1\n# paroxython: \ny = 2 # paroxython: foo".toList =
+    .ok ⟨"x = 1\ny = 2".toList, [("foo".toList, [(2, 2)])], []⟩ := by rfl
 
 /-- Non-vacuity of `C02_hint_spans_partial`. -/
-example : hygienic [.code { code := "x = 1".toList, hints := [⟨.one false, "foo".toList, {}⟩] }] = true := by decide
+example : hygienic (normalised [(.code { code := [] }, {}),
+    (.code { code := "x = 1".toList, hints := [⟨.one false, "foo".toList, {}⟩] }, { sp1 := 0 })]) = true := by decide
 
 /-! ## The error label -/
 
